@@ -583,10 +583,9 @@ fn c18(cx: &Ctx) {
 fn c11(cx: &Ctx) {
     let orgs = origins(cx.evs);
     for r in &cx.log.oplog {
-        let Op::Insert { k, ver, loc, .. } = &r.op else { continue };
-        if cx.phantom_insert(*k, *loc) {
-            continue;
-        }
+        let Op::Insert { k, ver, .. } = &r.op else { continue };
+        // a phantom insert (rejected by the filter / advised on-disk) closes the in-flight round just like any other
+        // insert; every fetch has its own version, so "the late result" stays identifiable
         for o in orgs.iter().filter(|o| o.k == *k) {
             // the fetch was in flight when the insert was invoked and its origin had not resolved when the insert
             // returned (it resolves later, or is abandoned)
